@@ -951,6 +951,11 @@ def normalize_package(trees, known=None, passes=None):
             inline_module_constants(t)
         if on(4):
             with_lock(t)
+    if on(6):
+        # aliases of helpers (`match = _match_prefix`) are resolved before the helpers are unfolded
+        for mn, t in trees.items():
+            for q, fn, cls, func in qualnames(t, mn):
+                explain_vars(fn)
     if on(5):
         if known is None:
             known = load_known()
